@@ -37,6 +37,33 @@ pub struct ParamM {
     pub doc: Option<String>,
 }
 
+impl MapSet {
+    /// the first entry or comment of `self` that `o` does not carry identically; None: `o` says everything `self` says
+    pub fn missing_in(&self, o: &MapSet) -> Option<String> {
+        for (k, c) in &self.classes {
+            let Some(d) = o.classes.get(k) else { return Some(format!("class {k}")) };
+            if c.names != d.names || (c.doc.is_some() && c.doc != d.doc) {
+                return Some(format!("class {k} (names or comment)"));
+            }
+            for (what, x, y) in [("field", &c.fields, &d.fields), ("method", &c.methods, &d.methods)] {
+                for (mk, m) in x {
+                    let Some(n) = y.get(mk) else { return Some(format!("class {k} {what} {mk:?}")) };
+                    if m.names != n.names || (m.doc.is_some() && m.doc != n.doc) {
+                        return Some(format!("class {k} {what} {mk:?} (names or comment)"));
+                    }
+                    for (pi, pp) in &m.params {
+                        let Some(q) = n.params.get(pi) else { return Some(format!("class {k} {what} {mk:?} parameter {pi}")) };
+                        if pp.names != q.names || (pp.doc.is_some() && pp.doc != q.doc) {
+                            return Some(format!("class {k} {what} {mk:?} parameter {pi} (names or comment)"));
+                        }
+                    }
+                }
+            }
+        }
+        None
+    }
+}
+
 pub fn mkey(name: &str, desc: &str) -> String {
     format!("{name}\t{desc}")
 }
